@@ -1,5 +1,6 @@
 """C19: allocation failure propagates cleanly.  Aggregates the fault jobs of the pool executors."""
 import p_buffer
+import p_stream
 from runner import Check
 
 
@@ -14,10 +15,30 @@ class C19(p_buffer.BufferCheck):
 
     def models(self, tier):
         return [("MC_BufferPool", "MC_BufferPool_2" if tier == "quick" else "MC_BufferPool_3"),
-                ("MC_BufferImpl", "MC_BufferImpl" if tier == "quick" else "MC_BufferImpl_full")]
+                ("MC_BufferImpl", "MC_BufferImpl" if tier == "quick" else "MC_BufferImpl_full"),
+                ("MC_Stream", "MC_Stream_2" if tier == "quick" else "MC_Stream_3"),
+                ("StreamImpl", "MC_StreamImpl" if tier == "quick" else "MC_StreamImpl_full")]
 
     def jobs(self, tier, seed):
-        return p_buffer.fault_jobs(self, tier, seed)
+        J = p_buffer.fault_jobs(self, tier, seed)
+        self.buffer_gen = self.gen_info
+        sc = p_stream.StreamCheck()
+        J += p_stream.fault_jobs(sc, tier, seed)
+        self.stream_gen = sc.gen_info
+        return J
+
+    def replay_jobs(self, rej):
+        if rej.get("spec") == "TraceStream":
+            return p_stream.StreamCheck().replay_jobs(rej)
+        return p_buffer.BufferCheck.replay_jobs(self, rej)
+
+    def describe(self, rej):
+        if rej.get("spec") == "TraceStream":
+            return p_stream.StreamCheck().describe(rej)
+        return p_buffer.BufferCheck.describe(self, rej)
+
+    def extra_coverage(self, tier, agg):
+        return {"schedule_generation": {"buffers": getattr(self, "buffer_gen", None), "streams": getattr(self, "stream_gen", None)}}
 
 
 CHECKS = {"C19": C19}
